@@ -24,33 +24,33 @@ type exitWorld struct {
 	rows int
 	cols int
 
-	plan     []exitStep
-	exitKind int // 0 Close from main, 1 SIGTERM, 2 panic in the input goroutine
-	sigStep  int
-	panicAt  int
-	userIn   bool
-	opts     vaxis.Options
+	plan      []exitStep
+	exitKind  int // 0 Close from main, 1 SIGTERM, 2 panic in the input goroutine
+	sigStep   int
+	panicAt   int
+	userIn    bool
+	opts      vaxis.Options
 	initStyle int
 	initApp   string
 	initKitty []int
 	initFlags int
 	initSet   []int // DEC modes already set when the application starts
 
-	before    simterm.ModeTable
-	afterNew  simterm.ModeTable
-	vx        *vaxis.Vaxis
-	done      bool
-	sigSent   bool
-	sigAccepted int
-	closedSelf bool
-	exitSeen  time.Duration
-	suspends  int
-	newRet    bool
-	mainClosed bool
-	panicked  bool
+	before         simterm.ModeTable
+	afterNew       simterm.ModeTable
+	vx             *vaxis.Vaxis
+	done           bool
+	sigSent        bool
+	sigAccepted    int
+	closedSelf     bool
+	exitSeen       time.Duration
+	suspends       int
+	newRet         bool
+	mainClosed     bool
+	panicked       bool
 	startedAtEnter bool
-	mainBusy  string // what the main task is inside of ("" = polling / idle)
-	overlap   string // the library's own exit path ran concurrently with this main-task call
+	mainBusy       string // what the main task is inside of ("" = polling / idle)
+	overlap        string // the library's own exit path ran concurrently with this main-task call
 }
 
 // enter/leave bracket the main task's calls into the library so that a
